@@ -675,3 +675,56 @@ Proof.
 Qed.
 Lemma no_trap_svg_doc_slice off len n : svg_doc_slice off len n <> None.
 Proof. discriminate. Qed.
+
+(* ---- auto-hinter segment linking score ---- *)
+Lemma no_trap_derived_constant upem v : u16 upem -> 0 <= v <= 32767 -> derived_constant upem v <> None.
+Proof.
+  intros Hu Hv. unfold derived_constant, mul32, u16 in *. rewrite chk_s32_some by (unfold i32; nia).
+  cbn [obind]. rewrite div32_some by lia. discriminate.
+Qed.
+Lemma quot_abs_le a b : b <> 0 -> Z.abs (Z.quot a b) <= Z.abs a.
+Proof.
+  intros Hb. rewrite <- (Z.quot_abs a b) by assumption.
+  apply Z.quot_le_upper_bound; [lia|]. nia.
+Qed.
+Lemma no_trap_link_score mw dist len len_score :
+  (match mw with Some w => i32 w | None => True end) ->
+  0 <= dist <= 65535 -> 1 <= len <= 65535 -> 0 <= len_score <= 2000000000 ->
+  link_score mw dist len len_score <> None.
+Proof.
+  intros Hmw Hd Hl Hs. unfold link_score. cbv zeta.
+  set (w := match mw with Some w => w | None => 0 end).
+  assert (Hw : i32 w) by (subst w; destruct mw; [assumption|unfold i32; lia]).
+  assert (Hq : forall q, 0 <= q <= 2147483647 -> div32 len_score len = Some (Z.quot len_score len) /\ True).
+  { intros. split; [apply div32_some; lia|exact I]. }
+  assert (Hl2 : 0 <= Z.quot len_score len <= 2000000000).
+  { split; [apply Z.quot_pos; lia|]. apply Z.quot_le_upper_bound; nia. }
+  destruct (negb (w =? 0)) eqn:Ew.
+  - assert (Hw0 : w <> 0) by (destruct (w =? 0) eqn:E; [discriminate|lia]).
+    assert (Hsh : wrap_s 32 (Z.shiftl dist 10) = dist * 1024).
+    { rewrite Z.shiftl_mul_pow2 by lia. change (2 ^ 10) with 1024. apply wrap_s32_id. unfold i32. lia. }
+    rewrite Hsh.
+    assert (Hdiv : div32 (dist * 1024) w = Some (Z.quot (dist * 1024) w)).
+    { unfold div32, div_s. replace (w =? 0) with false by lia.
+      replace (dist * 1024 =? - 2 ^ (32 - 1)) with false by (change (2 ^ (32 - 1)) with 2147483648; lia).
+      cbn [andb]. reflexivity. }
+    rewrite Hdiv. cbn [obind].
+    pose proof (quot_abs_le (dist * 1024) w Hw0) as Hqa.
+    set (q := Z.quot (dist * 1024) w) in *.
+    assert (Hqr : -67107840 <= q <= 67107840) by lia.
+    unfold sub32. rewrite chk_s32_some by (unfold i32; lia). cbn [obind].
+    destruct (10000 <? q - 1024) eqn:E1.
+    + cbn [obind]. rewrite div32_some by lia. cbn [obind]. unfold add32.
+      rewrite chk_s32_some by (unfold i32; lia). discriminate.
+    + destruct (0 <? q - 1024) eqn:E2.
+      * unfold mul32. rewrite chk_s32_some by (unfold i32; nia). cbn [obind].
+        rewrite div32_some by lia. cbn [obind].
+        assert (0 <= Z.quot ((q - 1024) * (q - 1024)) 3000 <= 100000000).
+        { split; [apply Z.quot_pos; nia|]. apply Z.quot_le_upper_bound; nia. }
+        rewrite div32_some by lia. cbn [obind]. unfold add32.
+        rewrite chk_s32_some by (unfold i32; lia). discriminate.
+      * cbn [obind]. rewrite div32_some by lia. cbn [obind]. unfold add32.
+        rewrite chk_s32_some by (unfold i32; lia). discriminate.
+  - cbn [obind]. rewrite div32_some by lia. cbn [obind]. unfold add32.
+    rewrite chk_s32_some by (unfold i32; lia). discriminate.
+Qed.
